@@ -83,14 +83,45 @@ async def sleep_until(loop, t_ms: int):
         h.cancel()
 
 
-def run_sync(coro):
-    """Run a coroutine that is expected not to suspend (``_receive`` for Data / Nack) to completion."""
+class _Resume:
+    """awaitable that keeps driving a coroutine which was already advanced to its first suspension point"""
+
+    def __init__(self, coro, first):
+        self.coro, self.first = coro, first
+
+    def __await__(self):
+        fut = self.first
+        while True:
+            try:
+                yield fut                     # hand the awaited future to the event loop
+            except BaseException as e:        # noqa  (cancellation is forwarded into the coroutine)
+                try:
+                    fut = self.coro.throw(e)
+                except StopIteration:
+                    return
+            else:
+                try:
+                    fut = self.coro.send(None)
+                except StopIteration:
+                    return
+
+
+async def _drive(coro, first):
+    await _Resume(coro, first)
+
+
+def run_sync(coro, loop=None):
+    """Run a coroutine that normally does not suspend (``_receive`` for Data / Nack).  If it does suspend (a changed
+    library may await something inside the receive pipeline) it is continued as a background task, exactly as a face
+    would run it (faces spawn the callback as a task per packet); its outcome then shows up in the checked contracts."""
     try:
-        coro.send(None)
+        first = coro.send(None)
     except StopIteration:
         return
-    coro.close()
-    raise HarnessError('coroutine suspended in run_sync')
+    if loop is None:
+        coro.close()
+        raise HarnessError('coroutine suspended in run_sync')
+    loop.create_task(_drive(coro, first))
 
 
 def same_turn(loop, fn):
@@ -197,7 +228,7 @@ class Rig:
 
     def inject_now(self, wire: bytes):
         typ, _ = enc.parse_tl_num(wire)
-        run_sync(self.app._receive(typ, memoryview(wire)))
+        run_sync(self.app._receive(typ, memoryview(wire)), self.loop)
 
     def describe_loop_error(self, ctx) -> tuple[str, str]:
         exc = ctx.get('exception')
